@@ -21,13 +21,8 @@ namespace LexVerif.Model.Ops.WriteFloat
 open LexVerif.Spec LexVerif.Model LexVerif.Model.WriteFloat
 open LexVerif.Model.WriteInt (Res)
 
-/-- which `buffer_size_const` the code under test has: `false` = the formula of the current /repo HEAD, `true` = after
-`fixes/C09-buffer-size-const.diff`.  Flip together with committing the fix in /repo. -/
-def repoHasFixedBufferSize : Bool := true
-
-/-- `buffer_size_const` of the code under test -/
-def boundOf (feats : Features) (f : Fmt) (fmt : Format) (o : WOpts) : Nat :=
-  if repoHasFixedBufferSize then bufferSizeConstFixed feats f fmt o else bufferSizeConst feats f fmt o
+/-- `buffer_size_const` of the code under test (the formula since /repo fb7040b; `bufferSizeConstOld` is the one before) -/
+def boundOf (feats : Features) (f : Fmt) (fmt : Format) (o : WOpts) : Nat := bufferSizeConst feats f fmt o
 
 /-- `write_float` of the code under test -/
 def writeFloatCur (feats : Features) (f : Fmt) (fmt : Format) (o : WOpts) (debug : Bool) (bits : Nat)
